@@ -198,6 +198,9 @@ func addrDesc(v ssa.Value) string {
 	case *ssa.Global:
 		return "global:" + x.Name()
 	case *ssa.Const:
+		if x.Value != nil {
+			return x.Value.String()
+		}
 		return "const"
 	case *ssa.MakeSlice:
 		return "make"
@@ -210,6 +213,18 @@ func addrDesc(v ssa.Value) string {
 		return addrDesc(x.X) + "." + st.Field(x.Field).Name()
 	case *ssa.MakeInterface:
 		return addrDesc(x.X)
+	case *ssa.BinOp:
+		return "(" + addrDesc(x.X) + x.Op.String() + addrDesc(x.Y) + ")"
+	case *ssa.Next:
+		return "next(" + addrDesc(x.Iter) + ")"
+	case *ssa.Range:
+		return "range(" + addrDesc(x.X) + ")"
+	case *ssa.ChangeInterface:
+		return addrDesc(x.X)
+	case *ssa.Function:
+		return "func:" + x.Name()
+	case *ssa.MakeClosure:
+		return "closure"
 	}
 	return fmt.Sprintf("%T", v)
 }
